@@ -28,7 +28,7 @@ ValsObjQ == {Ob("intPair", 1, 1), Ob("intPair", 1, 2)}
 ValsObj2 == ValsObj1 \cup {Ob("boolean_flag", 1, 1), Ob("boolean_flag", 1, 2)}
 ValsMixed == {I1, Ob("intPair", 1, 1), Ob("intPair", 1, 2)}
 Typed1 == {[ty |-> "intPair", data |-> <<42, 0, 0, 1>>]}
-Typed2 == {[ty |-> "raw", data |-> <<1>>], [ty |-> "doubleBox", data |-> <<42, 0, 255, 1>>]}
+Typed2 == {[ty |-> "doubleBox", data |-> <<42, 0, 255, 1>>], [ty |-> "doubleBox", data |-> <<7, 8, 9, 10>>]}
 DVals1 == {I1, B1, S1, Ob("intPair", 1, 2), Ob("boolean_flag", 2, 1), Ob("doubleBox", 3, 3), Ob("TypeA", 1, 1), Ob("unsigned int_t", 2, 2),
            Ob("const char*Name", 1, 3), Ob("void*Handle", 2, 3), Ob("long int64", 3, 1)}
 NoKeys == {}
